@@ -106,3 +106,10 @@ CHECKS["C06"] = dict(
     design_ref="DESIGN.md 3 C06",
     note="The environment whitelist, metatables and everything reachable by running Lua are outside; replays boot the real sandbox with a stub ustring module.",
 )
+CHECKS["C03"] = dict(
+    engine="E1 CrossHair; E2 z3 regex",
+    technique="CrossHair symbolic execution of the real table handlers from every table state of the abstraction (one-step lemmas) and of parse_attrs on written attributes; z3 regular-language inclusion for the table-attribute detector",
+    text="Tables: from every state (table / caption / row with up to two closed cells of symbolic kind and an optional open cell) each of the tokens |-, |, !, ||, !!, |+, |} leaves exactly the state the written grid prescribes; by induction over tokens an r x c grid gives r rows of c cells of the written kind. Attributes: parse_attrs returns exactly the written map for symbolic names/values in all three quoting styles; the detector accepts the whole URL-safe attribute grammar (unbounded). HTML nesting, link/template argument lists are NOT claimed.",
+    design_ref="DESIGN.md 3 C03",
+    note="State shapes are enumerated, kinds and text symbolic; cell text is concrete in the ||/!! steps (CrossHair artefact); vbar_split's back-reference pattern is not encodable.",
+)
